@@ -8,6 +8,7 @@ mod lat_suite;
 mod limits_suite;
 mod links_suite;
 mod oracle;
+mod pool_mt_suite;
 mod pool_suite;
 mod pressure_suite;
 mod reader_suite;
@@ -183,6 +184,10 @@ fn main() {
     },
     "pool" => {
       let t = pool_suite::run_suite(a.seed, a.cases);
+      std::fs::write(&a.out, t).expect("write transcript");
+    },
+    "pool_mt" => {
+      let t = pool_mt_suite::run_suite(a.seed, a.cases);
       std::fs::write(&a.out, t).expect("write transcript");
     },
     "writer" => {
